@@ -503,6 +503,13 @@ func verifRunListing(out *verifkit.Trace, w *verifLW, in verifListingIn) {
 			outbox["orderedItems"] = entries
 		} else {
 			page := map[string]any{"id": outboxID + "?page=1", "type": "OrderedCollectionPage", "orderedItems": entries, "partOf": outboxID}
+			if len(entries) >= 2 && w.rng.Intn(2) == 0 {
+				/* the entries on two pages */
+				half := 1 + w.rng.Intn(len(entries)-1)
+				second := map[string]any{"id": outboxID + "?page=2", "type": "OrderedCollectionPage", "orderedItems": entries[half:], "partOf": outboxID}
+				w.publish(second)
+				page["orderedItems"], page["next"] = entries[:half], second["id"]
+			}
 			w.publish(page)
 			if w.rng.Intn(2) == 0 {
 				outbox["first"] = page["id"]
@@ -593,7 +600,19 @@ func verifRunListing(out *verifkit.Trace, w *verifLW, in verifListingIn) {
 		if children == nil {
 			panic("owner has no children container")
 		}
-		items, _, _ := children.Harvest(uint(len(entries)+3), 0)
+		var items []Tangible
+		if w.sid%2 == 1 && len(entries) >= 2 {
+			/* read as a page is read: a little first, the rest from where that stopped */
+			first, next, start := children.Harvest(1, 0)
+			items = append(items, first...)
+			for next != nil && len(items) < len(entries)+6 {
+				var more []Tangible
+				more, next, start = next.Harvest(uint(len(entries)+3), start)
+				items = append(items, more...)
+			}
+		} else {
+			items, _, _ = children.Harvest(uint(len(entries)+3), 0)
+		}
 		for i, it := range items {
 			if _, isFailure := it.(*Failure); isFailure {
 				shown = append(shown, "error")
